@@ -69,7 +69,7 @@ static void c07_case(const vector<Tpl> &T, int a, int b, int n, int code, int sz
         if (fabs(rs[i]->width() - w0[i]) > 1e-9 || fabs(rs[i]->height() - h0[i]) > 1e-9) { ctx.violation("size_changed", {}, desc, mcx::fmt("node %d %gx%g", i, rs[i]->width(), rs[i]->height())); bad = true; } }
     bool anyRep = !ux.empty() || !uy.empty(); if (anyRep) ctx.count("reported_unsatisfiable");
     string who; for (auto *lst : {&ux, &uy}) { for (auto *u : *lst) { int owner = -1; for (size_t k = 0; k < used.size(); k++) for (auto m : mine[k]) if (u->cc == m) owner = k; who += mcx::fmt("%s:#%d(%u+%g%s%u) ", lst == &ux ? "x" : "y", owner, u->leftVarIndex, u->separation, u->equality ? "==" : "<=", u->rightVarIndex); } }
-    if (!bad && thrown.empty()) for (size_t k = 0; k < used.size(); k++) {
+    if (!bad) for (size_t k = 0; k < used.size(); k++) {   // judged even when an internal assertion threw: the rectangles are still there
         double v = T[used[k]].viol(x, y, x0, y0);
         if (v > 1e-4) {
             bool excused = false; for (auto *u : ux) for (auto m : mine[k]) if (u->cc == m) excused = true; for (auto *u : uy) for (auto m : mine[k]) if (u->cc == m) excused = true;
@@ -121,7 +121,7 @@ static void c08_case(int n, int code, int sz, int hier, double pad, bool exempt,
     bool un = !ux.empty() || !uy.empty(); if (un) ctx.count("reported_unsatisfiable");
     string pos; for (int i = 0; i < n; i++) pos += mcx::fmt("[%g,%g %gx%g]", rs[i]->getCentreX(), rs[i]->getCentreY(), rs[i]->width(), rs[i]->height());
     for (int i = 0; i < n; i++) { if (!(rs[i]->getCentreX() == rs[i]->getCentreX()) || std::isinf(rs[i]->getCentreX()) || !(rs[i]->getCentreY() == rs[i]->getCentreY())) ctx.violation("nonfinite", {}, desc, pos); if (fabs(rs[i]->width() - w0[i]) > 1e-9 || fabs(rs[i]->height() - h0[i]) > 1e-9) ctx.violation("size_changed", {}, desc, pos); }
-    if (!un && thrown.empty()) {
+    if (!un) {   // judged even when an internal assertion threw
         for (int i = 0; i < n; i++) for (int j = i + 1; j < n; j++) { if (exempt && i == 0 && j == 1) continue;
             double qx = min(rs[i]->getMaxX(), rs[j]->getMaxX()) - max(rs[i]->getMinX(), rs[j]->getMinX()), qy = min(rs[i]->getMaxY(), rs[j]->getMaxY()) - max(rs[i]->getMinY(), rs[j]->getMinY());
             if (qx > 1e-3 && qy > 1e-3) ctx.violation("node_overlap", {}, desc, mcx::fmt("nodes %d,%d overlap %gx%g: ", i, j, qx, qy) + pos); }
